@@ -24,9 +24,10 @@ namespace Oomd {
 class ContinuePlugin : public Engine::BasePlugin {
  public:
   int init(
-      const Engine::PluginArgs& /* unused */,
+      const Engine::PluginArgs& args,
       const PluginConstructionContext& /* unused */) override {
-    return 0;
+    // no arguments are declared: reject any that are given
+    return argParser_.parse(args) ? 0 : 1;
   }
 
   Engine::PluginRet run(OomdContext& /* unused */) override {
